@@ -5,7 +5,7 @@ Require Extraction.
 Require Import ExtrOcamlBasic.
 From Coq Require Import ZArith List.
 From Cedar Require Import Base.Int64 Lang.Value Lang.Expr Impl.Authorize Impl.Like Impl.Eval
-  Impl.Decimal Impl.Duration Impl.Datetime Impl.IPAddr Impl.Fold Impl.PolicySet Impl.HashSet Impl.Partial Impl.Batch Impl.Hash Impl.SetTable Generated.Tables Impl.Scanner Impl.Tokenizer Lang.Cursor Impl.Quote Impl.IPPrint Impl.Parser Impl.Printer Base.Json Impl.ValueJson Impl.PolicyJson Impl.SchemaResolve Impl.TypeCheck.
+  Impl.Decimal Impl.Duration Impl.Datetime Impl.IPAddr Impl.Fold Impl.PolicySet Impl.HashSet Impl.Partial Impl.Batch Impl.Hash Impl.SetTable Generated.Tables Impl.Scanner Impl.Tokenizer Lang.Cursor Impl.Quote Impl.IPPrint Impl.Parser Impl.Printer Base.Json Impl.ValueJson Impl.PolicyJson Impl.SchemaResolve Impl.TypeCheck Impl.SchemaJson.
 Extraction Language OCaml.
 Extraction "model.ml"
   Authorize.authorize
@@ -26,4 +26,5 @@ Extraction "model.ml"
   ValueJson.encode_value ValueJson.decode_value
   PolicyJson.enc_policy PolicyJson.dec_policy
   SchemaResolve.resolve_schema SchemaResolve.is_descendant
-  TypeCheck.typeof.
+  TypeCheck.typeof
+  SchemaJson.enc_schema SchemaJson.dec_schema SchemaJson.erase.
